@@ -1236,9 +1236,21 @@ func (g *G) genFunc(i int) *Func {
 				}
 				call.Args = append(call.Args, a)
 			}
-			f.Body = append(f.Body, &S{K: SReturn, ID: g.id(), E: call, RetIter: true})
-			g.feat["CALL:"+o.Name] = true
-			g.mark("return_with_non_nil_operand")
+			if r.Chance(1, 3) {
+				// an operand without any call whose evaluation panics (index out of range on an
+				// empty slice of iterators): the advance that reaches the return must panic
+				f.Body = append([]*S{{K: SVarDecl, ID: g.id(), Name: "its9", Type: "[]«Iter[int]»"}}, f.Body...)
+				idx := "0"
+				if len(f.Params) > 0 {
+					idx = "(" + f.Params[0] + "*" + f.Params[0] + ")%3"
+				}
+				f.Body = append(f.Body, &S{K: SReturn, ID: g.id(), E: &X{K: XRaw, S: "its9[" + idx + "]"}, RetIter: true})
+				g.mark("return_operand_panics_without_a_call")
+			} else {
+				f.Body = append(f.Body, &S{K: SReturn, ID: g.id(), E: call, RetIter: true})
+				g.feat["CALL:"+o.Name] = true
+				g.mark("return_with_non_nil_operand")
+			}
 		}
 	}
 	f.Body = append(f.Body, &S{K: SReturn, ID: g.id(), Nil: !f.Named})
